@@ -66,4 +66,10 @@ META = {
   "note": "Trusts the recording stub (deep copies of arguments), the semantic normal forms in harness/c02 and the documented canonicalisations; both endpoints are the real library, so a defect symmetric in encoder and decoder is only caught by C01/C04/C18.",
   "technique": "property-based testing (rapid): differential between API call and recorded backend call through real client+server",
  },
+ "C03": {
+  "text": "Round-trip search through two real endpoints: generated response data written by a stub session through the server's writer API must come back equal (under the documented canonicalisations) from the client's Wait/Collect, for every response kind and with IMAP4rev2 / UTF8=ACCEPT on or off. Sampling, not proof.",
+  "design_ref": "DESIGN.md 3/C03",
+  "note": "Trusts the canonical renderers in harness/c03; both endpoints are the library itself, so wire-format legality is judged elsewhere (C01/C18).",
+  "technique": "property-based testing (rapid): round-trip of generated response plans through real server writers and real client",
+ },
 }
